@@ -1022,6 +1022,9 @@ func callBuiltin(caller *frame, callpos token.Pos, fn *ssa.Builtin, args []value
 			if x == nil {
 				return 0
 			}
+			if caller != nil && caller.i.sched != nil {
+				caller.i.sched.point(caller) // len(ch) is a racy read: a scheduling point
+			}
 			return len(x.buf)
 		default:
 			panic(fmt.Sprintf("len: illegal operand: %T", x))
